@@ -522,7 +522,13 @@ class SessionDescription:
                             clockRate=int(bits[1]),
                             payloadType=int(format_id),
                         )
-                        current_media.rtp.codecs.append(codec)
+                        # A payload type is mapped at most once, keep the first
+                        # mapping (the one `find_codec` returns).
+                        if all(
+                            x.payloadType != codec.payloadType
+                            for x in current_media.rtp.codecs
+                        ):
+                            current_media.rtp.codecs.append(codec)
                     elif attr == "sctpmap":
                         format_id, format_desc = value.split(" ", 1)
                         getattr(current_media, attr)[int(format_id)] = format_desc
